@@ -299,3 +299,5 @@ def run(repo, chk):
     ok = fdr.has("start, *parts = x.split('.')") and fdr.has("curr = env[start]", when=["start in env"]) and len(loops) == 1 and \
         any(isinstance(a, ast.Assign) and norm(a) == f"curr = getattr(curr, {norm(loops[0].target)})" for a in ast.walk(loops[0]))
     chk.ob("R13.3", "selector.dict_resolver.resolve:dotted-path", ok, dr.where, "dotted names are resolved attribute by attribute from the environment")
+    from .shared import activation_integrity_obligations
+    activation_integrity_obligations(repo, chk, "R13.4", "receiver-constrained probes")
